@@ -110,13 +110,15 @@ def finish(ctx, t0, trusted):
                 print("KNOWN-FINDING: property=%s obligation=%s %s [%s] (%s)" % (ctx.prop, o.oid, known_keys[kk]["what"], r["key"], r["loc"]))
             else:
                 violations.append((o, r))
+    noev = bool(os.environ.get("LSA_NO_EVIDENCE"))
+    outdir = VERIF if not noev else os.environ.get("TMPDIR", "/tmp")
     os.makedirs(os.path.join(VERIF, "evidence"), exist_ok=True)
-    os.makedirs(os.path.join(VERIF, "replay"), exist_ok=True)
+    os.makedirs(os.path.join(outdir, "replay"), exist_ok=True)
     for o in ctx.obligations:
         print("%-8s %-8s instances=%-3d %s" % (o.oid, o.verdict() if not (o.refutations and all((ctx.prop, o.oid, r["key"]) in known_keys for r in o.refutations) and not o.unknowns) else "KNOWN", len(o.instances), o.rule[:110]))
     code = 0
     for o, r in violations:
-        rp = os.path.join(VERIF, "replay", "%s_%s_%s.json" % (ctx.prop, o.oid, _safe(r["key"])))
+        rp = os.path.join(outdir, "replay", "%s_%s_%s.json" % (ctx.prop, o.oid, _safe(r["key"])))
         with open(rp, "w") as f:
             json.dump({"property": ctx.prop, "obligation": o.oid, "rule": o.rule, "key": r["key"], "msg": r["msg"],
                        "loc": r["loc"], "detail": r["detail"]}, f, indent=1, default=str)
@@ -127,7 +129,8 @@ def finish(ctx, t0, trusted):
         print("ANALYSIS-ERROR property=%s obligation=%s %s" % (ctx.prop, o.oid, r))
     if errors and code == 0:
         code = 2
-    write_evidence(ctx, t0, trusted, len(violations), nknown, len(errors))
+    if not noev:
+        write_evidence(ctx, t0, trusted, len(violations), nknown, len(errors))
     return code
 
 
